@@ -161,6 +161,24 @@ def gen_C06(rng, tier):
             back = p.bind('slice %s %s' % (r, ranges(idx)))
             p.add('equals %s %s' % (back, names[j]))
             base += lens[j]
+        # results are operands of further Concat / Patch calls — twice from the same base — and every earlier result is
+        # read again afterwards (a result must not share storage with what was built from it)
+        if rng.random() < 0.6:
+            made = [r]
+            cur, csh = r, [v if j != dim else sum(lens) for j, v in enumerate(shape)]
+            for rep in range(rng.randint(1, 3)):
+                forks = []
+                for f in range(2):
+                    es = list(csh); es[dim] = rng.randint(1, 2)
+                    e = p.tensor(es, [1000.0 * (rep + 1) + 100.0 * f + v for v in range(prod(es))])
+                    forks.append((p.bind('concat %s,%s %d' % (cur, e, dim)), es[dim]))
+                blk = [rng.randint(1, v) for v in csh]
+                ptc = p.bind('patch %s %s %s' % (cur, ranges([(0, b) for b in blk]), p.tensor(blk, [-5.0 - v for v in range(prod(blk))])))
+                made += [forks[0][0], forks[1][0], ptc]
+                cur = forks[1][0]; csh = [v if j != dim else v + forks[1][1] for j, v in enumerate(csh)]
+            for m in made: p.add('obs %s' % m)
+            for nm in names: p.add('obs %s' % nm)
+            p.tag('results-reused-as-operands')
         p.tag('concat', 'k%d' % k)
         progs.append(p)
     # constructors
@@ -272,6 +290,22 @@ def gen_C03(rng, tier):
             for o in arith:
                 r = p.bind('%s %s %s' % (o, ta, row)); p.add('obs %s' % r)
         p.tag('special-values')
+        progs.append(p)
+    # neighbouring elements that compare equal but are not the same value (+0 next to -0), or are the same value
+    # repeated: every element-wise operation is still applied element by element; 1/y makes the sign of a zero visible
+    for i in range(40 if tier == 'quick' else 800):
+        p = Prog('c03_z%d' % i)
+        shape = rand_shape(rng, 3, 4, 1)
+        n = prod(shape)
+        pat = rng.choice([[0.0, -0.0], [-0.0, 0.0], [0.0, 0.0, -0.0], [2.0, 2.0, -2.0], [-0.0, -0.0, 0.0, 1.0]])
+        vals = [pat[k % len(pat)] for k in range(n)]
+        t = p.tensor(shape, vals)
+        one = p.tensor(shape, [1.0] * n)
+        for cmd in ['scale %s %s' % (t, f2b(2.0)), 'scale %s %s' % (t, f2b(-1.0)), 'pow %s %s' % (t, f2b(1.0)), 'pow %s %s' % (t, f2b(3.0)),
+                    'pow %s %s' % (t, f2b(-1.0)), 'sin %s' % t, 'tan %s' % t, 'sinh %s' % t, 'tanh %s' % t, 'exp %s' % t, 'cos %s' % t]:
+            y = p.bind(cmd); p.add('obs %s' % y)
+            q = p.bind('div %s %s' % (one, y)); p.add('obs %s' % q)
+        p.tag('equal-neighbours-signed-zeros')
         progs.append(p)
     # incompatible shapes must be errors
     for i in range(40 if tier == 'quick' else 300):
